@@ -149,6 +149,7 @@ type interpreter struct {
 	stepLimit          int64
 	params             map[string]int  // harness parameters (nd.Param)
 	known              map[string]bool // confirmed known findings (nd.Known)
+	sortStable         bool            // inside sort.SliceStable (ties keep their order)
 	callDepth          int             // frames of in-flight calls (unbounded recursion is a fatal error)
 	traceSum           uint64          // digest of the nd.Assert / nd.Reach calls of the current path
 	traceN             int
@@ -446,6 +447,12 @@ func visitInstr(fr *frame, instr ssa.Instruction) continuation {
 		x := fr.get(instr.X)
 		idx := fr.get(instr.Index)
 
+		if si, isSym := idx.(*sym); isSym {
+			if v, ok := symbolicByteIndex(fr, x, si); ok {
+				fr.setv(instr, v)
+				break
+			}
+		}
 		switch x := x.(type) {
 		case array:
 			fr.setv(instr, x[asInt64(idx)])
@@ -928,4 +935,53 @@ func Interpret(mainpkg *ssa.Package, mode Mode, sizes types.Sizes, filename stri
 		exitCode = 1
 	}
 	return
+}
+
+// symbolicByteIndex: x[i] for a symbolic index into a string or an array of bytes of at most 256 elements (a
+// look-up table such as "0123456789abcdef"[n]) is one term - a nested ite over the elements - instead of a fork
+// per feasible index. The bounds check stays a branch: an index that may lie outside panics on that side.
+func symbolicByteIndex(fr *frame, x value, idx *sym) (value, bool) {
+	var elems []value
+	switch x := x.(type) {
+	case string:
+		for k := 0; k < len(x); k++ {
+			elems = append(elems, x[k])
+		}
+	case sstr:
+		elems = x
+	case array:
+		elems = x
+	default:
+		return nil, false
+	}
+	if len(elems) == 0 || len(elems) > 256 || idx.k != symBV {
+		return nil, false
+	}
+	terms := make([]string, len(elems))
+	for k, e := range elems {
+		switch b := e.(type) {
+		case uint8:
+			terms[k] = bvConst(uint64(b), 8)
+		case *sym:
+			if b.k != symBV || b.w != 8 {
+				return nil, false
+			}
+			terms[k] = b.e
+		default:
+			return nil, false
+		}
+	}
+	_, signed := kindWidth(idx.gk)
+	inRange := "(bvult " + idx.e + " " + bvConst(uint64(len(elems)), idx.w) + ")"
+	if signed {
+		inRange = "(and (bvsge " + idx.e + " " + bvConst(0, idx.w) + ") (bvslt " + idx.e + " " + bvConst(uint64(len(elems)), idx.w) + "))"
+	}
+	if !fr.i.cond(mkBool(inRange)) {
+		return nil, false // outside: the ordinary path concretises the index and faults like the runtime does
+	}
+	e := terms[len(terms)-1]
+	for k := len(terms) - 2; k >= 0; k-- {
+		e = "(ite (= " + idx.e + " " + bvConst(uint64(k), idx.w) + ") " + terms[k] + " " + e + ")"
+	}
+	return &sym{e: e, k: symBV, w: 8, gk: types.Uint8}, true
 }
